@@ -347,6 +347,30 @@ def run(ctx: Ctx, which: str):
                 for e in oracle_c01(fsnap):
                     ctx.violate(f'C01:{e.split(":")[0][:40]}', 'after an activation aborted by a model exception: ' + e, {**c, 'after_request': k})
         ctx.case({k: c[k] for k in ('na', 'nd', 'ns', 'mx', 'reqs', 'prefix_then_clear', 'fail_at') if k in c}, nontrivial=nacc >= 2, kind=c['kind'])
+        # C01: the weights that System.simulate_fit replays for the accepted requests are, at every iteration, the inclusion-exclusion
+        # weights of the replayed sets (the replay rebuilds both weight tables from the history alone)
+        if which == 'C01' and c['kind'] == 'random' and snaps and 'raised' not in snaps[-1] and not c.get('fail_at') and ctx.rng.random() < 0.5:
+            from amisc import System
+            na = c['na']
+            acc_reqs = []
+            prev_ = {'active': []}
+            for k_, sn_ in enumerate(snaps):
+                if sn_['active'] != prev_['active']:
+                    acc_reqs.append(c['reqs'][k_])
+                prev_ = sn_
+            try:
+                sysm = System(comp, name='replay')
+                for r_ in acc_reqs:
+                    sysm.train_history.append({'component': comp.name, 'alpha': tuple(r_[:na]), 'beta': tuple(r_[na:]), 'num_evals': 0, 'added_cost': 0.0,
+                                               'added_error': 0.0})
+                for it_, (_res, acts, cands, ctr, cte) in enumerate(sysm.simulate_fit()):
+                    rsnap = {'active': sorted(tuple(a) + tuple(b) for a, b in acts[comp.name]), 'cand': sorted(tuple(a) + tuple(b) for a, b in cands[comp.name]),
+                             'ctrain': tree_items(ctr[comp.name]), 'ctest': tree_items(cte[comp.name])}
+                    for e in oracle_c01(rsnap):
+                        ctx.violate(f'C01:replayed-{e.split(":")[0][:40]}', f'simulate_fit, iteration {it_}: ' + e, {**c, 'iteration': it_}); break
+                ctx.count('replays_checked')
+            except Exception as e:
+                ctx.violate('C01:simulate_fit-raises', f'{type(e).__name__}: {e}', c)
         ctx.count(f'dims={len(mx)}')
         ctx.count('requests', len(c['reqs'])); ctx.count('accepted', nacc)
         if snaps and 'raised' in snaps[-1]:
